@@ -293,6 +293,7 @@ def oracle(o, baseline):
     prog = o["prog"]
     created_at = {}
     pristine = strip(o["pristine"])
+    caller_shared_dialer = any(x.get("reused") and x["opt"] == "Dialer" for cl in prog for x in cl)
     for k, st in enumerate(o["steps"]):
         # no object may be reachable from two clients, or from a client and a package-level variable
         gl = pointers({n: v for n, v in st["defaults"].items() if not n.endswith("()")})
@@ -304,6 +305,8 @@ def oracle(o, baseline):
         for x in range(len(cps)):
             for y in range(x + 1, len(cps)):
                 for a in cps[x][1]:
+                    if a in cps[y][1] and caller_shared_dialer and cps[x][1][a].startswith("/cfg/to/dialer"):
+                        continue        # the caller passed one *uacp.Dialer to both clients: shared as such, by the caller
                     if a in cps[y][1]:
                         out.append(("clients-share-object", "clients %d and %d (%s) share one object: %s" % (cps[x][0], cps[y][0], prog_text(prog[:cps[y][0] + 1]), cps[x][1][a])))
         if out:
@@ -454,7 +457,7 @@ def run(ctx):
     nontriv = {json.dumps(o["prog"]) for o in obs if len(o["prog"]) >= 2 and any(cl for cl in o["prog"])}
     ctx.coverage.update({
         "evaluations": len(obs), "distinct_nontrivial": len(nontriv),
-        "rule": "programs = sequences of NewClient calls, each program in a fresh process: every exported Option constructor of config.go (list regenerated from the source) alone followed by a default client, then between two default clients, then after Dialer(d) for each partially filled d (empty, only net.Dialer, only ClientACK), then two clients that both take SecurityFromEndpoint's fallback with every option X on the later resp. the earlier one, then %d seeded random programs (1-4 clients, 0-9 options each, arguments incl. nil/empty/boundary values, caller-built dialers, unparsable certificates, missing files); after every call all package defaults and all clients are dumped by reflection, by value and with object addresses (no object may be reachable from two clients or from a client and a package variable); distinct_nontrivial = distinct programs with >= 2 clients and >= 1 option" % n,
+        "rule": "programs = sequences of NewClient calls, each program in a fresh process: every exported Option constructor of config.go (list regenerated from the source) alone followed by a default client, then between two default clients, then after Dialer(d) for each partially filled d (empty, only net.Dialer, only ClientACK), then one Option VALUE X applied to two clients each followed by its own AuthPolicyID (every X), then two clients that both take SecurityFromEndpoint's fallback with every option X on the later resp. the earlier one, then %d seeded random programs (1-4 clients, 0-9 options each, arguments incl. nil/empty/boundary values, caller-built dialers, unparsable certificates, missing files); after every call all package defaults and all clients are dumped by reflection, by value and with object addresses (no object may be reachable from two clients or from a client and a package variable); distinct_nontrivial = distinct programs with >= 2 clients and >= 1 option" % n,
         "samples": [{"prog": o["prog"], "outcomes": [s["outcome"] for s in o["steps"]]} for o in obs[16:18] + obs[-2:]],
         "options_exercised": used, "outcomes": outcomes, "programs_with_explicit_default_pointer_excluded_from_oracle": excluded,
         "traces_validated_against_impl": len(lines), "model_impl_mismatches": detail.get("mismatch_count", 0),
